@@ -46,7 +46,7 @@ JudgeRun(g, s, ref) ==
             stall == IF idle THEN acc.stall + 1 ELSE 0
             v6 == IF stall >= 2 THEN {<<k, "I6-no-progress-with-input-and-space-available">>} ELSE {}
             v7 == IF acc.finished /\ (c.p # 0 \/ ~fin) THEN {<<k, "I4-call-after-FINISH-had-an-effect">>} ELSE {}
-            vx == IF s.expect_ret # 0 /\ c.ret < 0 /\ c.ret # s.expect_ret THEN {<<k, "I3-wrong-error-class-for-single-fault">>} ELSE {}
+            vx == IF s.expect_ret # 0 /\ ref.tag = "Invalid" /\ c.ret < 0 /\ c.ret # s.expect_ret THEN {<<k, "I3-wrong-error-class-for-single-fault">>} ELSE {}
         IN [delivered |-> delivered, viol |-> acc.viol \cup v1 \cup v2 \cup v3 \cup v4 \cup v6 \cup v7 \cup vx, stall |-> stall, finished |-> acc.finished \/ fin,
             sawerr |-> acc.sawerr \/ c.ret < 0, space_short |-> acc.space_short \/ (c.ret = 2)]
       a == FoldLeft(step, [delivered |-> <<>>, viol |-> {}, stall |-> 0, finished |-> FALSE, sawerr |-> FALSE, space_short |-> FALSE], Range1(ncalls))
@@ -55,8 +55,9 @@ JudgeRun(g, s, ref) ==
             ELSE IF s.end.why = "stalled" THEN {<<ncalls, "I6-no-progress-with-input-and-space-available">>}
             ELSE IF ref.tag = "Valid" /\ ~lenient /\ ~a.finished /\ ~a.space_short /\ s.complete_supply
                  THEN {<<ncalls, "I5-valid-stream-not-finished-" \o s.end.why>>} ELSE {}
-      \* an invalid single-fault stream must be reported, with the documented class
-      v8 == IF s.expect_ret # 0 /\ ~a.sawerr /\ s.complete_supply /\ ~a.space_short THEN {<<ncalls, "I3-injected-fault-not-reported">>} ELSE {}
+      \* an invalid single-fault stream must be reported, with the documented class (only when the spec agrees that the producer's
+      \* injected fault made the stream invalid: shortening a code of an incomplete set can leave a perfectly valid stream)
+      v8 == IF s.expect_ret # 0 /\ ref.tag = "Invalid" /\ ~a.sawerr /\ s.complete_supply /\ ~a.space_short THEN {<<ncalls, "I3-injected-fault-not-reported">>} ELSE {}
   IN [scn |-> s.scn, viol |-> SetToSeq(a.viol \cup v5 \cup v8), ref |-> ref.tag, class |-> ref.class, lenient |-> lenient, finished |-> a.finished,
       nout |-> Len(ref.out), delivered |-> Len(a.delivered),
       nblocks |-> IF "d" \in DOMAIN ref THEN Len(ref.d.blocks) ELSE 0,
